@@ -13,6 +13,7 @@ import (
 	"net/http/httptest"
 	"net/url"
 	"os"
+	"sort"
 	"strings"
 	"sync"
 	"time"
@@ -23,18 +24,18 @@ import (
 	"github.com/buzzfeed/sso/internal/auth/providers"
 	"github.com/buzzfeed/sso/internal/pkg/aead"
 	"github.com/buzzfeed/sso/internal/pkg/sessions"
-	"github.com/buzzfeed/sso/internal/pkg/validators"
 )
 
-// answerSpec scripts one IdP endpoint.
+// answerSpec scripts one IdP answer.
 type answerSpec struct {
 	Transport int    // 0 respond; 1 close the connection without a response; 2 body shorter than Content-Length
 	Status    int    // HTTP status when Transport == 0
 	Raw       []byte // body bytes
 }
 
+// scenario is ONE login: the code presented, what the IdP answers for that code at the token
+// endpoint, and what it holds at the userinfo endpoint for the access token of that answer.
 type scenario struct {
-	Prov        string // google | okta | cognito
 	Code        string
 	Tok, UI     answerSpec
 	TokIntended *tokClass  // class the body was rendered from (nil when the bytes were mangled afterwards)
@@ -44,41 +45,142 @@ type scenario struct {
 	Note        string
 }
 
-var laterStatus = map[int]int{1: 500, 2: 500, 3: 403, 4: 403, 5: 403}
-
-type fakeIdP struct {
-	mu      sync.Mutex
-	tok, ui answerSpec
-	tokHit  bool
-	uiHit   bool
-	srv     *httptest.Server
+// group is 1-4 logins in flight at once against ONE provider object (one configuration).
+type group struct {
+	Cfg     int // index into cfgPool
+	Members []scenario
+	Order   []int // order in which the held token requests are let through
+	Note    string
 }
 
-func (f *fakeIdP) set(tok, ui answerSpec) {
+var laterStatus = map[int]int{1: 500, 2: 500, 3: 403, 4: 403, 5: 403}
+
+// ---------------------------------------------------------------------------------------------
+// provider configurations (a case dimension): every option of auth.ProviderConfig that reaches a
+// provider constructor through options.go:newProvider. None of them is consulted by Redeem in the
+// unchanged code, so the model has no such parameter; the driver varies them so that a change that
+// starts consulting one (or a claim that goes with it) is exercised.
+
+type providerCfg struct {
+	Type string // google | okta | cognito
+	PC   auth.ProviderConfig
+}
+
+func pcfg(typ, slug, id, secret, scope string) auth.ProviderConfig {
+	return auth.ProviderConfig{ProviderType: typ, ProviderSlug: slug, Scope: scope,
+		ClientConfig: auth.ClientConfig{ID: id, Secret: secret}}
+}
+
+func buildCfgPool() []providerCfg {
+	var l []providerCfg
+	g := func(slug, id, scope, prompt, domain string) {
+		pc := pcfg("google", slug, id, "google-secret", scope)
+		pc.GoogleProviderConfig = auth.GoogleProviderConfig{ApprovalPrompt: prompt, HostedDomain: domain}
+		l = append(l, providerCfg{"google", pc})
+	}
+	o := func(slug, id, scope, orgURL, server string) {
+		pc := pcfg("okta", slug, id, "okta-secret", scope)
+		pc.OktaProviderConfig = auth.OktaProviderConfig{OrgURL: orgURL, ServerID: server}
+		pc.GroupCacheConfig.CacheIntervalConfig.Provider = time.Minute
+		l = append(l, providerCfg{"okta", pc})
+	}
+	cg := func(slug, id, scope, orgURL, region, pool string) {
+		pc := pcfg("cognito", slug, id, "cognito-secret", scope)
+		pc.AmazonCognitoProviderConfig = auth.AmazonCognitoProviderConfig{OrgURL: orgURL, Region: region, UserPoolID: pool,
+			Credentials: auth.CognitoCredentials{ID: "AKIAVERIF", Secret: "aws-secret"}}
+		pc.GroupCacheConfig.CacheIntervalConfig.Refresh = time.Hour
+		l = append(l, providerCfg{"cognito", pc})
+	}
+	// index 0, 1, 2 are the defaults of the three provider types. No slug is a prefix of another one:
+	// mux.go routes with PathPrefix("/"+slug), so "/google" would also capture "/google-hd/callback"
+	g("google", "client-id", "", "", "")
+	o("okta", "client-id", "", "test.okta.example", "")
+	cg("cognito", "client-id", "", "test.cognito.example", "us-east-1", "us-east-1_pool")
+	g("ghd", "client-id", "", "", "example.com")
+	g("gcorp", "corp-client.apps.googleusercontent.com", "openid email profile", "select_account", "corp.example")
+	g("gupper", "client-id-2", "email", "consent", "EXAMPLE.COM")
+	g("gscope", "client-id-3", "openid email https://www.googleapis.com/auth/admin.directory.group.readonly", "none", "")
+	o("odefault", "0oa-client", "", "test.okta.example", "default")
+	o("ocustom", "0oa-client-2", "openid email", "corp.okta.example", "aus1abcd")
+	o("oscope", "client-id", "openid profile email groups offline_access okta.users.read", "test.okta.example", "default")
+	cg("ceu", "cognito-client-2", "openid email", "corp.auth.eu-west-1.amazoncognito.example", "eu-west-1", "eu-west-1_AbCdEf")
+	cg("cscope", "client-id", "openid profile email aws.cognito.signin.user.admin phone", "test.cognito.example", "us-east-1", "us-east-1_pool")
+	return l
+}
+
+var cfgPool = buildCfgPool()
+
+func (p providerCfg) describe() map[string]interface{} {
+	m := map[string]interface{}{"type": p.Type, "slug": p.PC.ProviderSlug, "client_id": p.PC.ClientConfig.ID, "scope": p.PC.Scope}
+	switch p.Type {
+	case "google":
+		m["prompt"], m["hosted_domain"] = p.PC.GoogleProviderConfig.ApprovalPrompt, p.PC.GoogleProviderConfig.HostedDomain
+	case "okta":
+		m["org_url"], m["server_id"] = p.PC.OktaProviderConfig.OrgURL, p.PC.OktaProviderConfig.ServerID
+	case "cognito":
+		m["org_url"], m["region"], m["pool"] = p.PC.AmazonCognitoProviderConfig.OrgURL, p.PC.AmazonCognitoProviderConfig.Region, p.PC.AmazonCognitoProviderConfig.UserPoolID
+	}
+	return m
+}
+
+// ---------------------------------------------------------------------------------------------
+// the fake IdP: answers the token endpoint by the code it receives and the userinfo endpoint by
+// the bearer token it receives
+
+type fakeIdP struct {
+	mu         sync.Mutex
+	tokBy      map[string]answerSpec // by code
+	uiBy       map[string]answerSpec // by (space-trimmed) access token
+	tokHit     map[string]bool
+	uiHit      map[string]bool
+	unexpected []string
+	srv        *httptest.Server
+}
+
+func normToken(t string) string { return strings.TrimSpace(t) } // net/http trims header values on the wire
+
+func (f *fakeIdP) set(tokBy, uiBy map[string]answerSpec) {
 	f.mu.Lock()
-	f.tok, f.ui, f.tokHit, f.uiHit = tok, ui, false, false
+	f.tokBy, f.uiBy = tokBy, uiBy
+	f.tokHit, f.uiHit, f.unexpected = map[string]bool{}, map[string]bool{}, nil
 	f.mu.Unlock()
 }
 
-func (f *fakeIdP) hits() (bool, bool) {
+func (f *fakeIdP) snapshot() (map[string]bool, map[string]bool, []string) {
 	f.mu.Lock()
 	defer f.mu.Unlock()
-	return f.tokHit, f.uiHit
+	return f.tokHit, f.uiHit, f.unexpected
 }
 
 func (f *fakeIdP) serve(rw http.ResponseWriter, req *http.Request) {
-	io.Copy(io.Discard, req.Body)
-	f.mu.Lock()
+	path := strings.ToLower(req.URL.Path)
 	var a answerSpec
-	switch req.URL.Path {
-	case "/token":
-		a, f.tokHit = f.tok, true
-	case "/userinfo":
-		a, f.uiHit = f.ui, true
+	var ok bool
+	f.mu.Lock()
+	switch {
+	case strings.HasSuffix(path, "/token"):
+		req.ParseForm()
+		code := req.PostForm.Get("code")
+		a, ok = f.tokBy[code]
+		if ok {
+			f.tokHit[code] = true
+		} else {
+			f.unexpected = append(f.unexpected, "token endpoint: unknown code "+fmt.Sprintf("%q", code))
+			a = answerSpec{Status: 400, Raw: []byte(`{"error":"invalid_grant"}`)}
+		}
+	case strings.HasSuffix(path, "/userinfo"):
+		io.Copy(io.Discard, req.Body)
+		bearer := normToken(strings.TrimPrefix(req.Header.Get("Authorization"), "Bearer "))
+		a, ok = f.uiBy[bearer]
+		if ok {
+			f.uiHit[bearer] = true
+		} else {
+			f.unexpected = append(f.unexpected, "userinfo endpoint: unknown bearer "+fmt.Sprintf("%q", bearer))
+			a = answerSpec{Status: 401, Raw: []byte(`{"error":"invalid_token"}`)}
+		}
 	default:
-		f.mu.Unlock()
-		rw.WriteHeader(418)
-		return
+		f.unexpected = append(f.unexpected, "unknown path "+req.URL.Path)
+		a = answerSpec{Status: 418}
 	}
 	f.mu.Unlock()
 	switch a.Transport {
@@ -104,11 +206,105 @@ func (f *fakeIdP) serve(rw http.ResponseWriter, req *http.Request) {
 	rw.Write(a.Raw)
 }
 
+// ---------------------------------------------------------------------------------------------
+// the gate: a RoundTripper in front of the providers' IdP client transport that holds a request
+// back BEFORE it is written to the wire (= slow connection set-up) until the driver lets it go
+
+type heldReq struct {
+	req     *http.Request
+	release chan struct{}
+}
+
+type gate struct {
+	mu       sync.Mutex
+	holding  bool
+	arrivals chan *heldReq
+	inner    http.RoundTripper
+}
+
+func (g *gate) setHolding(b bool) {
+	g.mu.Lock()
+	g.holding = b
+	g.mu.Unlock()
+}
+
+func (g *gate) RoundTrip(req *http.Request) (*http.Response, error) {
+	g.mu.Lock()
+	h := g.holding
+	g.mu.Unlock()
+	if h {
+		x := &heldReq{req: req, release: make(chan struct{})}
+		g.arrivals <- x
+		<-x.release
+	}
+	return g.inner.RoundTrip(req)
+}
+
+const watchdog = 200 * time.Second
+
+func stuck(what string) {
+	fmt.Fprintln(os.Stderr, "harness: concurrent-login choreography stuck while", what)
+	os.Exit(3)
+}
+
+// overlap runs action(0..k-1) so that the logins genuinely overlap, in a fixed order without sleeps:
+//  1. login i is started and runs until its first IdP request (token endpoint) is held at the gate
+//     (or until it returns); then login i+1 is started. All k are now in flight.
+//  2. in the given order, login i's token request is let through; it runs until its next IdP request
+//     (userinfo) is held at the gate, or until it returns.
+//  3. all held userinfo requests are let through; everything from here on passes unhindered.
+func (g *gate) overlap(k int, order []int, action func(i int)) {
+	done := make([]chan struct{}, k)
+	first := make([]*heldReq, k)
+	g.setHolding(true)
+	for i := 0; i < k; i++ {
+		done[i] = make(chan struct{})
+		go func(i int) {
+			defer close(done[i])
+			action(i)
+		}(i)
+		select {
+		case h := <-g.arrivals:
+			first[i] = h
+		case <-done[i]:
+		case <-time.After(watchdog):
+			stuck("starting a login")
+		}
+	}
+	var second []*heldReq
+	for _, i := range order {
+		if first[i] == nil {
+			continue
+		}
+		close(first[i].release)
+		select {
+		case h := <-g.arrivals:
+			second = append(second, h)
+		case <-done[i]:
+		case <-time.After(watchdog):
+			stuck("waiting for a login's second request")
+		}
+	}
+	g.setHolding(false)
+	for _, h := range second {
+		close(h.release)
+	}
+	for i := 0; i < k; i++ {
+		select {
+		case <-done[i]:
+		case <-time.After(watchdog):
+			stuck("waiting for a login to finish")
+		}
+	}
+}
+
+// ---------------------------------------------------------------------------------------------
+
 type world struct {
 	idp               *fakeIdP
+	gate              *gate
 	provs             map[string]providers.Provider
-	authSrv           map[string]*httptest.Server
-	cookieName        map[string]string
+	authSrv           *httptest.Server
 	cipher            aead.Cipher
 	client            *http.Client
 	selfCheckFailures int
@@ -117,84 +313,85 @@ type world struct {
 const cookieSecretB64 = "zaPX2fYMyegfOwwMEaMiphwrjgxz0pxoTbxvQiK9zBY="
 const sessionKeyB64 = "CrYro5Kp6CO2aBbVGoHgnh2/YQaz9cqqRYNbtTSUBDs="
 const redirectURI = "http://sso-auth.example.test/callback"
+const authHost = "sso-auth.example.test"
 
 func newWorld() *world {
-	w := &world{idp: &fakeIdP{}, provs: map[string]providers.Provider{}, authSrv: map[string]*httptest.Server{}, cookieName: map[string]string{}}
+	w := &world{idp: &fakeIdP{}}
 	w.idp.srv = httptest.NewUnstartedServer(http.HandlerFunc(w.idp.serve))
 	w.idp.srv.Config.ErrorLog = log.New(io.Discard, "", 0)
 	w.idp.srv.Start()
 	base, _ := url.Parse(w.idp.srv.URL)
-	tokenURL := *base
-	tokenURL.Path = "/token"
-	userURL := *base
-	userURL.Path = "/userinfo"
 
-	pd := func(slug string) *providers.ProviderData {
-		return &providers.ProviderData{ProviderSlug: slug, ClientID: "client-id", ClientSecret: "client-secret", SessionLifetimeTTL: 720 * time.Hour}
+	providers.VerifSetHTTPTimeout(300 * time.Second) // shims: see shims/internal__auth__providers/shim.go
+	providers.VerifWrapHTTPTransport(func(inner http.RoundTripper) http.RoundTripper {
+		w.gate = &gate{arrivals: make(chan *heldReq, 64), inner: inner}
+		return w.gate
+	})
+
+	// the production entry point: a Configuration with all provider configurations of the pool,
+	// NewAuthenticatorMux -> newProvider -> the provider constructors, wrapped as in production
+	cfg := auth.Configuration{
+		ProviderConfigs: map[string]auth.ProviderConfig{},
+		ServerConfig:    auth.ServerConfig{Host: authHost, Port: 4180, Scheme: "http"},
+		SessionConfig: auth.SessionConfig{
+			SessionLifetimeTTL: 720 * time.Hour,
+			Key:                sessionKeyB64,
+			CookieConfig:       auth.CookieConfig{Name: "_sso_auth", Secret: cookieSecretB64, Expire: 168 * time.Hour, Secure: true, HTTPOnly: true},
+		},
+		MetricsConfig: auth.MetricsConfig{StatsdConfig: auth.StatsdConfig{Host: "localhost", Port: 8125}}, // validated only; no client is created
+		ClientConfigs: map[string]auth.ClientConfig{"proxy": {ID: "proxy-client-id", Secret: "proxy-client-secret"}},
+		AuthorizeConfig: auth.AuthorizeConfig{
+			EmailConfig: auth.EmailConfig{Domains: []string{"*"}},
+			ProxyConfig: auth.ProxyConfig{Domains: []string{"example.com"}},
+		},
 	}
-	// the constructors set the production endpoints; the exported URL fields are then pointed at the fake IdP
-	g, err := providers.NewGoogleProvider(pd("google"), "", "", "", "") // no credentials file: no admin service
+	for _, p := range cfgPool {
+		cfg.ProviderConfigs[p.PC.ProviderSlug] = p.PC
+	}
+	c.Must(cfg.Validate())
+	mux, err := auth.NewAuthenticatorMux(cfg, nil)
 	c.Must(err)
-	tu, uu := tokenURL, userURL
-	g.RedeemURL, g.ProfileURL = &tu, &uu
-	o, err := providers.NewOktaProvider(pd("okta"), "test.okta.example", "default")
-	c.Must(err)
-	tu2, uu2 := tokenURL, userURL
-	o.RedeemURL, o.ProfileURL = &tu2, &uu2
-	cg, err := providers.NewAmazonCognitoProvider(pd("cognito"), "test.cognito.example", "us-east-1", "pool", "id", "secret")
-	c.Must(err)
-	tu3, uu3 := tokenURL, userURL
-	cg.RedeemURL, cg.ProfileURL = &tu3, &uu3
-	// wrapped the way options.go:newProvider wraps them in production
-	w.provs["google"] = providers.NewSingleFlightProvider(g)
-	w.provs["okta"] = providers.NewSingleFlightProvider(providers.NewGroupCache(o, time.Minute, nil, []string{"provider:okta"}))
-	w.provs["cognito"] = providers.NewSingleFlightProvider(cg)
+	w.provs = mux.VerifProviders()
+	for _, p := range cfgPool {
+		pr, ok := w.provs[p.PC.ProviderSlug]
+		if !ok {
+			c.Must(fmt.Errorf("no provider object for slug %s", p.PC.ProviderSlug))
+		}
+		// the constructors set the production endpoints; scheme and host of the exported URL fields
+		// are pointed at the fake IdP, the paths the constructors computed are kept
+		d := pr.Data()
+		d.RedeemURL = &url.URL{Scheme: base.Scheme, Host: base.Host, Path: orPath(d.RedeemURL, "/token")}
+		d.ProfileURL = &url.URL{Scheme: base.Scheme, Host: base.Host, Path: orPath(d.ProfileURL, "/userinfo")}
+	}
 
 	secret, err := base64.StdEncoding.DecodeString(cookieSecretB64)
 	c.Must(err)
 	w.cipher, err = aead.NewMiscreantCipher(secret)
 	c.Must(err)
 
-	for slug, p := range w.provs {
-		cfg := auth.Configuration{
-			ServerConfig: auth.ServerConfig{Host: "sso-auth.example.test", Scheme: "http"},
-			SessionConfig: auth.SessionConfig{
-				SessionLifetimeTTL: 720 * time.Hour,
-				Key:                sessionKeyB64,
-				CookieConfig:       auth.CookieConfig{Name: "_sso_auth", Secret: cookieSecretB64, Expire: 168 * time.Hour, Secure: true, HTTPOnly: true},
-			},
-			ClientConfigs:   map[string]auth.ClientConfig{"proxy": {ID: "proxy-client-id", Secret: "proxy-client-secret"}},
-			AuthorizeConfig: auth.AuthorizeConfig{ProxyConfig: auth.ProxyConfig{Domains: []string{"example.com"}}},
-		}
-		a, err := auth.NewAuthenticator(cfg,
-			auth.SetValidators([]validators.Validator{validators.NewEmailDomainValidator([]string{"*"})}),
-			auth.SetProvider(p),
-			auth.SetCookieStore(cfg.SessionConfig, slug),
-			auth.SetStatsdClient(nil),
-			auth.SetRedirectURL(cfg.ServerConfig, slug),
-		)
-		c.Must(err)
-		// cmd/sso-auth/main.go:48 puts the whole mux behind http.TimeoutHandler
-		srv := httptest.NewUnstartedServer(http.TimeoutHandler(a.ServeMux, 240*time.Second, ""))
-		srv.Config.ErrorLog = log.New(io.Discard, "", 0) // "http: panic serving ..." lines
-		srv.Start()
-		w.authSrv[slug] = srv
-		w.cookieName[slug] = "_sso_auth_" + slug
-	}
-	providers.VerifSetHTTPTimeout(90 * time.Second) // shim: see shims/internal__auth__providers/shim.go
+	// cmd/sso-auth/main.go:48 puts the whole mux behind http.TimeoutHandler
+	w.authSrv = httptest.NewUnstartedServer(http.TimeoutHandler(mux, 280*time.Second, ""))
+	w.authSrv.Config.ErrorLog = log.New(io.Discard, "", 0) // "http: panic serving ..." lines
+	w.authSrv.Start()
 	w.client = &http.Client{
-		Timeout:       300 * time.Second,
-		Transport:     &http.Transport{MaxIdleConnsPerHost: 4, Proxy: nil}, // keep-alive: after a dropped connection net/http may retry the GET once on a fresh connection; the verdict (dropped) is the same
+		Timeout: 300 * time.Second,
+		// keep-alive: after a dropped connection net/http may retry the GET once on a fresh connection; the verdict (dropped) is the same
+		Transport:     &http.Transport{MaxIdleConnsPerHost: 8, Proxy: nil},
 		CheckRedirect: func(*http.Request, []*http.Request) error { return http.ErrUseLastResponse },
 	}
 	return w
 }
 
+func orPath(u *url.URL, dflt string) string {
+	if u == nil || u.Path == "" {
+		return dflt
+	}
+	return u.Path
+}
+
 func (w *world) close() {
 	w.idp.srv.Close()
-	for _, s := range w.authSrv {
-		s.Close()
-	}
+	w.authSrv.Close()
 }
 
 type redeemObs struct {
@@ -255,9 +452,9 @@ func (o cbObs) coq() string {
 	return fmt.Sprintf("(CPage %d %s)", o.Status, OptS(o.Cookie))
 }
 
-// callback performs GET /callback on the real authenticator over a real loopback connection.
-func (w *world) callback(sc scenario) cbObs {
-	slug := sc.Prov
+// callback performs GET /<slug>/callback on the real authenticator mux over a real loopback connection.
+func (w *world) callback(slug string, sc scenario) cbObs {
+	cookieName := "_sso_auth_" + slug
 	nonce := "nonce-123"
 	redirect := "https://app.example.com/oauth2/callback?x=1"
 	if sc.Later == 5 {
@@ -278,14 +475,15 @@ func (w *world) callback(sc scenario) cbObs {
 	if sc.ErrParam {
 		q.Set("error", "access_denied")
 	}
-	req, err := http.NewRequest("GET", w.authSrv[slug].URL+"/callback?"+q.Encode(), nil)
+	req, err := http.NewRequest("GET", w.authSrv.URL+"/"+slug+"/callback?"+q.Encode(), nil)
 	c.Must(err)
+	req.Host = authHost
 	switch sc.Later {
 	case 3:
 	case 4:
-		req.AddCookie(&http.Cookie{Name: w.cookieName[slug] + "_csrf", Value: "some-other-nonce"})
+		req.AddCookie(&http.Cookie{Name: cookieName + "_csrf", Value: "some-other-nonce"})
 	default:
-		req.AddCookie(&http.Cookie{Name: w.cookieName[slug] + "_csrf", Value: nonce})
+		req.AddCookie(&http.Cookie{Name: cookieName + "_csrf", Value: nonce})
 	}
 	resp, err := w.client.Do(req)
 	if err != nil {
@@ -305,7 +503,7 @@ func (w *world) callback(sc scenario) cbObs {
 	resp.Body.Close()
 	o := cbObs{Status: resp.StatusCode}
 	for _, ck := range resp.Cookies() {
-		if ck.Name == w.cookieName[slug] && ck.Value != "" {
+		if ck.Name == cookieName && ck.Value != "" {
 			email := "\x00<session cookie does not open>"
 			if s, err := sessions.UnmarshalSession(ck.Value, w.cipher); err == nil {
 				email = s.Email
@@ -325,47 +523,119 @@ func answerCoq(a answerSpec, class string) string {
 	return fmt.Sprintf("(Resp %d %s)", a.Status, class)
 }
 
-func (w *world) run(sc scenario) c.Case {
-	p := w.provs[sc.Prov]
-	// (a) provider.Redeem, directly
-	w.idp.set(sc.Tok, sc.UI)
-	ro := directRedeem(p, sc.Code)
-	tokHit, uiHit := w.idp.hits()
-	// (b) the same answers, through the authenticator's /callback
-	w.idp.set(sc.Tok, sc.UI)
-	co := w.callback(sc)
-
+// tokenKey is the access token the IdP issued in this login's token answer, as the relying party
+// will read it (Go's decoding of the very bytes served), or "" if there is none to present.
+func tokenKey(sc scenario) string {
+	if sc.Tok.Transport != 0 || sc.Tok.Status != 200 {
+		return ""
+	}
 	tc := probeTok(sc.Tok.Raw)
-	uc := probeUser(sc.UI.Raw)
-	if sc.TokIntended != nil && !sameTok(*sc.TokIntended, tc) {
-		w.selfCheckFailures++
-		if w.selfCheckFailures <= 3 {
-			fmt.Fprintf(os.Stderr, "self-check tok: %q intended %+v probed %+v\n", sc.Tok.Raw, *sc.TokIntended, tc)
+	if !tc.JSON || tc.Access.Kind != "str" {
+		return ""
+	}
+	return normToken(tc.Access.S)
+}
+
+// wellFormed: the logins of a group must be told apart by the IdP (distinct non-empty codes,
+// distinct access tokens); the generator re-draws a group that is not.
+func wellFormed(g group) bool {
+	codes, toks := map[string]bool{}, map[string]bool{}
+	for _, m := range g.Members {
+		if m.Code != "" {
+			if codes[m.Code] {
+				return false
+			}
+			codes[m.Code] = true
+		}
+		if k := tokenKey(m); k != "" {
+			if toks[k] {
+				return false
+			}
+			toks[k] = true
 		}
 	}
-	if sc.UIIntended != nil && !sameUser(*sc.UIIntended, uc) {
-		w.selfCheckFailures++
-		if w.selfCheckFailures <= 3 {
-			fmt.Fprintf(os.Stderr, "self-check userinfo: %q intended %+v probed %+v\n", sc.UI.Raw, *sc.UIIntended, uc)
+	return true
+}
+
+// run executes one group twice against the real code — provider.Redeem directly (inside recover),
+// then full /callback requests — each time with all its logins in flight at once, and returns
+// one correspondence case per login: the monitor judges every login against ITS OWN answers (the
+// token answer for its code, the userinfo answer the IdP holds for the access token in that answer).
+func (w *world) run(g group) []c.Case {
+	cfg := cfgPool[g.Cfg]
+	slug := cfg.PC.ProviderSlug
+	p := w.provs[slug]
+	k := len(g.Members)
+	order := g.Order
+	if len(order) != k {
+		order = make([]int, k)
+		for i := range order {
+			order[i] = i
 		}
 	}
-	tab, tabJS := payloadTable(tc)
-	later := "None"
-	if sc.Later != 0 {
-		later = fmt.Sprintf("(Some %d)", laterStatus[sc.Later])
+	tokBy, uiBy := map[string]answerSpec{}, map[string]answerSpec{}
+	keys := make([]string, k)
+	for i, m := range g.Members {
+		if m.Code != "" {
+			tokBy[m.Code] = m.Tok
+		}
+		keys[i] = tokenKey(m)
+		if keys[i] != "" {
+			uiBy[keys[i]] = m.UI
+		}
 	}
-	coq := fmt.Sprintf("Case %s %s %s %s %s %s %s %s (Some (%s, %s, %s))",
-		provCoq[sc.Prov], S(sc.Code), answerCoq(sc.Tok, tc.coq()), answerCoq(sc.UI, uc.coq()), tab,
-		ro.coq(), c.Bool(tokHit), c.Bool(uiHit), c.Bool(sc.ErrParam), later, co.coq())
-	js := map[string]interface{}{
-		"provider": sc.Prov, "code": sc.Code, "note": sc.Note,
-		"token_answer":    map[string]interface{}{"transport": sc.Tok.Transport, "status": sc.Tok.Status, "body": fmt.Sprintf("%q", sc.Tok.Raw), "class": tc},
-		"userinfo_answer": map[string]interface{}{"transport": sc.UI.Transport, "status": sc.UI.Status, "body": fmt.Sprintf("%q", sc.UI.Raw), "class": uc},
-		"payload_oracle":  tabJS,
-		"redeem":          ro, "token_called": tokHit, "userinfo_called": uiHit,
-		"callback": map[string]interface{}{"error_param": sc.ErrParam, "later_gate": sc.Later, "obs": co},
+
+	// (a) provider.Redeem, directly
+	w.idp.set(tokBy, uiBy)
+	ros := make([]redeemObs, k)
+	w.gate.overlap(k, order, func(i int) { ros[i] = directRedeem(p, g.Members[i].Code) })
+	tokHit, uiHit, unexpected := w.idp.snapshot()
+	// (b) the same answers, through the authenticator's /callback
+	w.idp.set(tokBy, uiBy)
+	cos := make([]cbObs, k)
+	w.gate.overlap(k, order, func(i int) { cos[i] = w.callback(slug, g.Members[i]) })
+	_, _, unexpected2 := w.idp.snapshot()
+	sort.Strings(unexpected)
+	sort.Strings(unexpected2)
+
+	var out []c.Case
+	for i, sc := range g.Members {
+		tc := probeTok(sc.Tok.Raw)
+		uc := probeUser(sc.UI.Raw)
+		if sc.TokIntended != nil && !sameTok(*sc.TokIntended, tc) {
+			w.selfCheckFailures++
+			if w.selfCheckFailures <= 3 {
+				fmt.Fprintf(os.Stderr, "self-check tok: %q intended %+v probed %+v\n", sc.Tok.Raw, *sc.TokIntended, tc)
+			}
+		}
+		if sc.UIIntended != nil && !sameUser(*sc.UIIntended, uc) {
+			w.selfCheckFailures++
+			if w.selfCheckFailures <= 3 {
+				fmt.Fprintf(os.Stderr, "self-check userinfo: %q intended %+v probed %+v\n", sc.UI.Raw, *sc.UIIntended, uc)
+			}
+		}
+		tab, tabJS := payloadTable(tc)
+		later := "None"
+		if sc.Later != 0 {
+			later = fmt.Sprintf("(Some %d)", laterStatus[sc.Later])
+		}
+		tag := g.Cfg*10 + k
+		coq := fmt.Sprintf("Case %d %s %s %s %s %s %s %s %s (Some (%s, %s, %s))",
+			tag, provCoq[cfg.Type], S(sc.Code), answerCoq(sc.Tok, tc.coq()), answerCoq(sc.UI, uc.coq()), tab,
+			ros[i].coq(), c.Bool(tokHit[sc.Code]), c.Bool(keys[i] != "" && uiHit[keys[i]]), c.Bool(sc.ErrParam), later, cos[i].coq())
+		js := map[string]interface{}{
+			"provider": cfg.Type, "config": cfg.describe(), "code": sc.Code, "note": sc.Note,
+			"group": map[string]interface{}{"size": k, "member": i, "release_order": order, "note": g.Note,
+				"unexpected_idp_requests_direct": unexpected, "unexpected_idp_requests_callback": unexpected2},
+			"token_answer":    map[string]interface{}{"transport": sc.Tok.Transport, "status": sc.Tok.Status, "body": fmt.Sprintf("%q", sc.Tok.Raw), "class": tc},
+			"userinfo_answer": map[string]interface{}{"for_access_token": keys[i], "transport": sc.UI.Transport, "status": sc.UI.Status, "body": fmt.Sprintf("%q", sc.UI.Raw), "class": uc},
+			"payload_oracle":  tabJS,
+			"redeem":          ros[i], "token_called": tokHit[sc.Code], "userinfo_called": keys[i] != "" && uiHit[keys[i]],
+			"callback": map[string]interface{}{"error_param": sc.ErrParam, "later_gate": sc.Later, "obs": cos[i]},
+		}
+		out = append(out, c.Case{Coq: coq, JSON: js})
 	}
-	return c.Case{Coq: coq, JSON: js}
+	return out
 }
 
 func sameTok(a, b tokClass) bool {
